@@ -76,7 +76,7 @@ def parseArg (t : String) : Arg :=
 def errName : Err → String
   | .enoerr => "ENOERR" | .eperm => "EPERM" | .estack => "ESTACK" | .edivby0 => "EDIVBY0"
   | .eargtm => "EARGTM" | .efunnf => "EFUNNF" | .eionmnf => "EIONMNF"
-  | .enotref => "ENOTREF" | .enonscatopos => "ENONSCATOPOS"
+  | .enotref => "ENOTREF" | .enonscatopos => "ENONSCATOPOS" | .enoent => "ENOENT"
 
 def escLine (s : String) : String := String.ofList (s.toList.map fun ch => if ch == ' ' then '_' else ch)
 def showLines (l : List String) : String := String.join (l.map fun s => escLine s ++ "|")
